@@ -113,7 +113,7 @@ Section ProtoProofs.
   Local Notation ctxrec := (ctxrec pk).
   Local Notation finalize_tx := (finalize_tx chal derive sk pk esig pk_eqb pub sign verify addr_sk).
   Local Notation finalize_core := (finalize_core chal derive sk pk esig pk_eqb pub sign verify addr_sk).
-  Local Notation late_lock_step := (late_lock_step derive sk pk esig pk_eqb pub addr_sk).
+  Local Notation late_lock_step := (late_lock_step derive sk pk esig pub addr_sk).
   Local Notation lock_tx_context := (lock_tx_context sk pk esig pub addr_sk).
   Local Notation update_stored_tx := (update_stored_tx sk pk esig pub sign addr_sk).
   Local Notation commit_kv := (commit_kv derive).
@@ -247,8 +247,8 @@ Section ProtoProofs.
     cf_stored : get_stored pk esig w' (sl_id r) = Some t;
     cf_pp : inv = false ->
             verify_slate_payment_proof sk pk esig pk_eqb pub verify addr_sk
-              (map lg_proof (entries_for pk esig w (sl_id r) (Some (w_parent w))))
-              (cx_pp_index c) (w_parent w) (sl_proof r) (cx_amount c) (kn_excess cf_k) = Ok tt;
+              (map lg_proof (entries_for pk esig w (sl_id r) (Some (cx_parent c))))
+              (cx_pp_index c) (cx_pp_recipient c) (cx_parent c) (sl_proof r) (cx_amount c) (kn_excess cf_k) = Ok tt;
     cf_log : exists want f g,
         update_first pk esig f g (w_log w) = Some (w_log w')
         /\ want = (if inv then TxReceived else TxSent)
@@ -541,7 +541,7 @@ Section ProtoProofs.
       cx_amount c' = cx_amount c /\ ctx_conserves pk c' f
       /\ (forall kv, In kv (cx_inputs c') ->
             exists o, In o (w_outs w) /\ o_key o = fst kv /\ o_value o = snd kv
-                      /\ o_root o = w_parent w /\ eligible o (w_tip w) (la_minconf la) = true)
+                      /\ o_root o = cx_parent c /\ eligible o (w_tip w) (la_minconf la) = true)
       /\ valid_tx t
       /\ in_commits t = map commit_kv (cx_inputs c')
       /\ (exists k, tx_kerns t = [k] /\ kernel_fee k = f)
@@ -558,7 +558,6 @@ Section ProtoProofs.
     destruct (finalize_core w1 r c' false) as [[w2 t2]|e|q] eqn:Ec; inversion H; subst; try discriminate.
     clear H.
     unfold Proto.late_lock_step in El.
-    destruct (late_lock_check _ _ _ _ _); try (inversion El; discriminate).
     match type of El with context [build_send ?os ?p] =>
       destruct (build_send os p) as [b|e|q] eqn:Eb; try (inversion El; discriminate);
       pose proof (build_send_conserves os p b Eb) as (Hsel & Hndk & Hsum & _ & _ & Haif & _)
@@ -627,7 +626,6 @@ Section ProtoProofs.
         exfalso. eapply Hne. reflexivity. }
       subst w1. clear H.
       unfold Proto.late_lock_step in El.
-      destruct (late_lock_check _ _ _ _ _); try (left; now inversion El).
       match type of El with context [build_send ?os ?p] =>
         destruct (build_send os p) as [b|e|q]; try (left; now inversion El) end.
       destruct (negb _); [left; now inversion El|].
@@ -660,7 +658,7 @@ Lemma build_send_ctx_conserves (os : list out) (p : params) (b : built) (pk : Ty
   b_fee b < FEE_MOD
   /\ ctx_conserves pk
        (mkCtx parent x k x k (map (fun o => (o_key o, o_value o)) (b_inputs b))
-              (combine keys (b_changes b)) (b_amount b) (Some (b_fee b)) idx None) (b_fee b)
+              (combine keys (b_changes b)) (b_amount b) (Some (b_fee b)) idx None None) (b_fee b)
   /\ (NoDup (map o_key os) ->
       NoDup (map fst (map (fun o => (o_key o, o_value o)) (b_inputs b)))).
 Proof.
@@ -691,7 +689,7 @@ Qed.
     commits to minus the amount is refused and leaves the wallet as it was. *)
 Definition ex_os : list out := [mkOut 0 0 60000000000 Unspent 1 0 true].
 Definition ex_a : exch :=
-  mkExch 1 0 0 [0] [(1, 57977000000)] 2000000000 (Some 23000000) None None 0 false.
+  mkExch 1 0 0 [(0, 60000000000)] [(1, 57977000000)] 2000000000 (Some 23000000) None None 0 false.
 Definition ex_honest : forge := mkForge [(100, 2000000000)] [] None 0 None StS2 1.
 Definition ex_case (m : mutation) : case :=
   mkCase 0 5 5 226 ex_os ex_a None 0 false ex_honest ex_honest 0 m.
